@@ -597,6 +597,19 @@ def run(tier):
                 dr = obj.to_der_fmt()
                 hdr_lib.append((kname, raw, dr, obj.to_raw_bin_fmt(),
                                 ossl.add(["ec", "-pubin", "-inform", "DER", "-in", "@in", "-pubout", "-outform", "DER"], data=dr)))
+                # the same public key handed to BEC2's key class in every legal DER form (point encodings x named/explicit
+                # parameters): the raw 64-byte form BEC2 derives from it must still be X||Y of that key
+                vk = _mk_sk("NIST256p", d).verifying_key
+                for pe in ("uncompressed", "compressed", "hybrid"):
+                    for cpe in ("named_curve", "explicit"):
+                        alt = vk.to_der(point_encoding=pe, curve_parameters_encoding=cpe)
+                        ev2 = {"op": "hdr2", "src": "library key (%s) %s/%s" % (kname, pe, cpe), "raw": list(raw), "altder": list(alt),
+                               "ok": True, "back": [], "exc": "", "_cost": 5}
+                        try:
+                            ev2["back"] = list(plugin.PublicEccKeyProxy.create_from_der_fmt(alt).to_raw_bin_fmt())
+                        except Exception as e:              # noqa: BLE001
+                            ev2["ok"], ev2["exc"] = False, type(e).__name__
+                        kev.append(ev2)
             ossl.run()
 
             # ---------------- fill in openssl's answers
@@ -842,6 +855,10 @@ def run(tier):
             elif op == "odec":
                 key = "C19:openssl-decode:%s:%s" % (e["kind"], clause)
                 what = "openssl's %s encoding (%s, %s, %s): %s" % (e["kind"], e["curve"], e["cpe"], e["pe"], clause)
+                data = _short(e)
+            elif op == "hdr2":
+                key = "C19:PublicEccKey.to_raw_bin_fmt:%s" % clause
+                what = "BEC2 key class loaded from a legal DER form (%s): %s" % (e["src"], clause)
                 data = _short(e)
             elif op == "hdr":
                 key = "C19:bec2-header:%s" % clause
